@@ -6,7 +6,7 @@ SPEC = {
         "extract": ["Extract/ExtNdl.v"],
         "theorems": [
             "C19_line", "C19_roundtrip", "C19_roundtrip_spaces", "C19_roundtrip_crlf", "C19_wf_satisfiable",
-            "C19_roundtrip_refuted", "C19_prefix",
+            "C19_roundtrip_refuted", "C19_accept_sound", "C19_parse_render_idempotent", "C19_prefix",
             "C19_reject_duplicate_argument", "C19_reject_unknown_type", "C19_reject_line_error_propagates",
             "C19_reject_wrong_nesting", "C19_reject_missing_section", "C19_reject_duplicate_network_id",
         ],
